@@ -65,6 +65,7 @@ class BodyPath:
         self.broke = False     # the iteration leaves the loop with `break` (only for iterations without effects)
         self.path_pc = []
         self.elem_writes = []
+        self.dict_sets = {}    # id(outer SymDictU) -> (dict, [(k, v)]) item assignments of this iteration
 
     def __repr__(self):
         return f'<bodypath {self.choices} events={self.events} appends={list(self.appends.values())}>'
@@ -85,7 +86,28 @@ def is_symbolic_iterable(it):
 def make_elem(ex, it):
     if isinstance(it, SymSeq):
         if it.elem_factory is None:
-            raise Unsupported(f'iteration over derived sequence {it.label}')
+            # the image of a summarised loop: a generic element is one of the values some path of that loop's body appended for a generic
+            # element of its source (over-approximation: that path's condition is not re-assumed)
+            cands = [(ch, v) for ch, vals in (it.mapped[1] if it.mapped else []) for v in vals]
+            if getattr(it, 'concat_of', None) and not cands:
+                # a + b: a generic element is a concrete item of either operand or a generic element of either symbolic part
+                opts = []
+                for part in it.concat_of:
+                    for x in list(getattr(part, 'prefix', None) or []) + list(part.suffix):
+                        opts.append(('item', x))
+                    if not (part.nonempty is False):
+                        opts.append(('gen', part))
+                k = ex.choose(len(opts), f'element of {it.label}', [repr(o) for o in opts]) if len(opts) > 1 else 0
+                kind, x = opts[k]
+                if kind == 'item':
+                    return x
+                bare = SymSeq.__new__(SymSeq)
+                bare.__dict__.update(x.__dict__)
+                return make_elem(ex, bare)
+            if not cands:
+                raise Unsupported(f'iteration over derived sequence {it.label}')
+            k = ex.choose(len(cands), f'element of {it.label}', [repr(ch) for ch, _ in cands]) if len(cands) > 1 else 0
+            return cands[k][1]
         return it.elem_factory(ex, it.label + '[*]')
     if isinstance(it, EnumSeq):
         i = SymVal('int', z3.Int(ex.fresh_name('i')))
@@ -194,7 +216,9 @@ def probe_body(ex, run_body, env, it, havoc_ok=(), body=None):
                     if len(c) < len(old):
                         raise Unsupported(f'loop body shrinks outer list {name}')
                     if len(c) > len(old):
-                        bp.appends[cid] = c[len(old):]
+                        # snapshot: concrete containers appended in this iteration may have been filled by item assignment, which the
+                        # roll-back of the probe undoes - the summary must keep their content at the time of the append
+                        bp.appends[cid] = [_snap(v_) for v_ in c[len(old):]]
                 else:
                     for k in old:
                         if k not in c or c[k] is not old[k]:
@@ -212,6 +236,10 @@ def probe_body(ex, run_body, env, it, havoc_ok=(), body=None):
                     raise Unsupported(f'loop body writes outer object {obj}.{attr}')
                 if kind == 'mutate':
                     if id(obj) in conts or ex.prov(obj) == 'fresh' or isinstance(obj, (SymSeq, SymDictU)) and obj.prov == 'fresh':
+                        continue
+                    if attr == 'setitem' and isinstance(obj, SymDictU) and bp.returned is None and not bp.broke and bp.raised is None:
+                        # d[k] = v on an outer dict of unknown content, once per element: summarised after the loop as d.update(<image>)
+                        bp.dict_sets.setdefault(id(obj), (obj, []))[1].append(new)
                         continue
                     if _reachable_from(elem, obj):
                         bp.elem_writes.append((obj, attr, None))
@@ -237,10 +265,29 @@ def probe_body(ex, run_body, env, it, havoc_ok=(), body=None):
             del ex.choices[mark_ch:]
             env.vars.clear()
             env.vars.update(saved_vars)
+    except LoopCarried:
+        # the caller retries with the name havocked: nothing of the abandoned probe may stay behind
+        while len(ex.undo) > mark_undo:
+            ex.undo.pop()()
+        del ex.log[mark_log:]
+        del ex.writes[mark_w:]
+        del ex.pc[mark_pc:]
+        del ex.choices[mark_ch:]
+        env.vars.clear()
+        env.vars.update(saved_vars)
+        raise
     finally:
         ex.trace, ex.pos = saved_trace, saved_pos
         ex.in_summary_probe, ex.probe_pending = saved_probe, saved_pp
     return paths, conts
+
+
+def _snap(v, depth=0):
+    if depth < 4 and isinstance(v, list):
+        return [_snap(x, depth + 1) for x in v]
+    if depth < 4 and isinstance(v, dict):
+        return {k: _snap(x, depth + 1) for k, x in v.items()}
+    return v
 
 
 def _same(a, b):
@@ -330,6 +377,21 @@ def apply_summary(ex, it, paths, conts, env, node):
             if old:
                 new.nonempty = True
         rebind(ex, env, c, new)
+    # item assignments to outer dicts of unknown content:  for x in xs: d[k(x)] = v(x)   ==   d.update({k(x): v(x) for x in xs})
+    outer_dicts = {}
+    for p in normal:
+        for did, (d_, pairs) in p.dict_sets.items():
+            outer_dicts[did] = d_
+    for did, d_ in outer_dicts.items():
+        per_path = [(p.choices, list(p.dict_sets.get(did, (None, []))[1])) for p in normal]
+        img = SymDictU(ex.fresh_name(f'items<-{seq.label}'), None, None, prov='fresh')
+        img.mapped = (seq, per_path)
+        img.prefix = {}
+        ex.record_write(d_, 'update', None, img, kind='mutate')
+        d_.updates.append(('update', img))
+        ex.push_undo(lambda d_=d_: d_.updates.pop())
+        ex.log.append(Event('DictUpdate', target=d_, source=img))
+        ex.push_undo(lambda: None)
     # loop-local names are dead after the loop
     for p in normal:
         for nme in getattr(p, 'local_names', []):
@@ -444,6 +506,27 @@ def summarise_comp(ex, e, it, gen, env):
 _SKIP = object()
 
 
+def summarise_map(ex, fn, it, node):
+    """map(fn, <symbolic sequence>) as the comprehension [fn(x) for x in it]; containers captured by fn's closure are tracked as accumulators"""
+    seq = base_seq(it)
+    env = Env(getattr(fn, 'module', None), parent=getattr(fn, 'env', None))
+
+    def run_body(elem):
+        return ex.call(fn, [elem], {}, node)
+    paths, conts = probe_body(ex, run_body, env, it)
+    normal = apply_summary(ex, it, paths, conts, env, node)
+    per_path = [(p.choices, [p.value]) for p in normal]
+    new = SymSeq(ex.fresh_name(f'map<-{seq.label}'), _mapped_factory(per_path), prov='fresh', mapped=(seq, per_path))
+    new.prefix = []
+    if isinstance(seq, SymSeq) and not seq.suffix and not getattr(seq, 'prefix', None):
+        new.len = seq.len
+        new.nonempty = seq.nonempty
+    else:
+        new.len = z3.Int(f'len({new.label})')
+        ex.assume(new.len >= 0)
+    return new
+
+
 # ------------------------------------------------------------------------------- sequence operations
 def seq_getitem(ex, seq, idx, node):
     if isinstance(idx, slice):
@@ -538,6 +621,30 @@ def symcont_method(ex, recv, name, args, kwargs, node):
             ex.push_undo(lambda: recv.suffix.pop())
             return None
         if name == 'extend':
+            other = args[0]
+            if isinstance(other, SymObj) and getattr(other, 'any_attr', False) and getattr(other, 'pslice', None) is None and '__iterseq__' in ex.method_stubs:
+                other = ex.method_stubs['__iterseq__'](ex, other, [], {})
+            if isinstance(other, SymSeq):
+                # in place: the receiver keeps its identity and becomes  <what it was> + <other>  (what `+=` builds, without the rebinding)
+                was = SymSeq.__new__(SymSeq)
+                was.__dict__.update(recv.__dict__)
+                was.suffix = list(recv.suffix)
+                if getattr(recv, 'prefix', None):
+                    was.prefix = list(recv.prefix)
+                saved = dict(recv.__dict__)
+                new_len = recv.len + other.len + len(recv.suffix) + len(other.suffix)
+                recv.__dict__.clear()
+                recv.__dict__.update(label=saved['label'], elem_factory=None, prov=saved['prov'], mapped=None, len=new_len, nonempty=None,
+                                     kind=saved['kind'], suffix=[], concat_of=(was, other))
+                if was.nonempty or other.nonempty or was.suffix or other.suffix:
+                    recv.nonempty = True
+                ex.record_write(recv, 'extend', None, other, kind='mutate')
+
+                def un2():
+                    recv.__dict__.clear()
+                    recv.__dict__.update(saved)
+                ex.push_undo(un2)
+                return None
             items = ex.iterate_concrete(args[0], node)
             n = len(items)
             recv.suffix.extend(items)
